@@ -1,7 +1,7 @@
 (* C02 — every request gets exactly one outcome; 404/405/415/406 are exact. *)
 From Model Require Import Str Sexp Http Template Table Curly DetectRoute Jsr311 Router.
 From Spec Require Import RouteSpec.
-From Proofs Require Import OutcomeProofs JsrProofs.
+From Proofs Require Import OutcomeProofs JsrProofs JsrOutcomeProofs.
 
 (* CurlyRouter.  For every regex oracle, table and request such that the routes
    of the service the URL belongs to use the documented template forms:
@@ -42,6 +42,19 @@ Definition C02_jsr_no_panic_statement : Prop :=
 Theorem C02_jsr_no_panic : C02_jsr_no_panic_statement.
 Proof. exact jsr_selected_never_panics. Qed.
 Print Assumptions C02_jsr_no_panic.
+
+(* RouterJSR311, the full cascade.  For every oracle, table and request such that the templates of the service the
+   URL belongs to are read structurally by path_expression.go ([jsr_best_agree]): routing never panics and the
+   observable outcome meets the declarative cascade computed over the SET of routes of that service whose
+   template admits the path in RouterJSR311's reading (the matcher is sound AND complete for that reading). *)
+Definition C02_jsr_statement : Prop :=
+  forall (O : oracles) (t : table) (req : request),
+    t_router t = Jsr311 -> jsr_best_agree O t req = true ->
+    route_request O t req <> RPanic /\
+    meets (jsr_expected O t req) (routed_view (route_request O t req)) = true.
+Theorem C02_jsr : C02_jsr_statement.
+Proof. exact jsr_outcome_exact. Qed.
+Print Assumptions C02_jsr.
 
 Example C02_example :
   let O := {| o_lower := lower_ascii; o_rx := fun _ _ => true; o_rxfull := fun _ _ => false |} in
